@@ -523,7 +523,7 @@ func init() {
 	ck := &run.Check{
 		Prop:  "C18",
 		Level: "exploration",
-		Rule: "for each case a steered program persists a history into a directory (one case in eight each: nothing ever persisted - an empty directory or junk only; a history that only created an empty child collection, i.e. a footer without segments), which is then decorated with what earlier runs or crashes can leave (an older complete data file of an unrelated store, zero-length / header-only / 1000-byte / footer-less newer data files, an unparsable data-zzz.moss, README, sub-directory, .tmp); the directory is hashed (names, sizes, SHA-256), opened with CollectionOptions.ReadOnly through a recording File substrate (KeepFiles on/off, index settings), read (must equal the persisted reference content), subjected to reads / up to 2 batches (half of the cases with batches that create child collections) / asynchronous notifications / stats / direct Store.Persist calls of the collection's snapshot with every compaction concern, and (a third of the cases, after the collection is closed) a SnapshotRevert attempt to the previous footer, after which the store must still expose the persisted content, closed, and hashed again after quiescence; any difference, any successful create-open, write (n>0), truncate or writable open in the recorded file operations, or a failing open, is a violation. distinct_nontrivial = distinct (decoration set | KeepFiles) pairs and action kinds.",
+		Rule: "for each case a steered program persists a history into a directory (one case in eight each: nothing ever persisted - an empty directory or junk only; a history that only created an empty child collection, i.e. a footer without segments), which is then decorated with what earlier runs or crashes can leave (an older complete data file of an unrelated store, zero-length / header-only / 1000-byte / footer-less newer data files, an unparsable data-zzz.moss, README, sub-directory, .tmp); the directory is hashed (names, sizes, SHA-256), opened with CollectionOptions.ReadOnly through a recording File substrate (KeepFiles on/off, index settings), read (must equal the persisted reference content), subjected to reads / up to 2 batches (half of the cases with batches that create child collections) / asynchronous notifications / stats / direct Store.Persist calls of the collection's snapshot with every compaction concern, and (a third of the cases, after the collection is closed) a SnapshotRevert attempt to the previous footer, after which the store must still expose the persisted content, closed, and hashed again after quiescence; any difference, any successful create-open, write (n>0), truncate or writable open in the recorded file operations, or a failing open, is a violation. distinct_nontrivial = distinct (decoration set | KeepFiles) pairs and action kinds. Half of the cases open through OpenStore + Store.OpenCollection instead of OpenStoreCollection.",
 		MinUnits:    10,
 		Assumptions: []string{"mutating operations that are attempted but refused by the OS (EBADF on an O_RDONLY descriptor) are counted, not reported: the property is about effects", "no merger runs in ReadOnly mode, so synchronous notifications and more than MaxPreMergerBatches-1 batches (which block by design) are not used"},
 	}
